@@ -1639,16 +1639,22 @@ def run_vcs(vcs, work, pid, log):
     results = []
     variants = enum_variants_from_source()
     parsed = {}
+    tables = {}
     for vc in vcs:
         tgt = vc.get("target", "bin")
         if tgt not in parsed:
             try:
                 texts[tgt] = dump_mir(work, tgt, log)
                 parsed[tgt] = parse_mir(texts[tgt])
+                # parse_mir fills two module-level tables (promoted constants, named constants) for the text it parsed:
+                # keep them per target, a property may mix VCs over the library's and the binary's MIR
+                tables[tgt] = (dict(PROMOTED), dict(NAMED_CONSTS))
             except Exception as e:
                 results.append({"name": vc["name"], "verdict": "inconclusive", "reason": "MIR dump: %s" % str(e)[:500]})
                 continue
         t0 = time.time()
+        PROMOTED.clear(); PROMOTED.update(tables[tgt][0])
+        NAMED_CONSTS.clear(); NAMED_CONSTS.update(tables[tgt][1])
         try:
             r = vc["run"](parsed[tgt], variants, work)
         except KeyError as e:
